@@ -28,6 +28,15 @@ type c16prop struct{ base }
 // c16scale generates the scale scenarios for C16.
 var c16scale = &histProp{scale: scaleAll, weights: HWeights{ParseNil: 1, Probe: 1}}
 
+// KindCPU: the scale scenarios parse megabytes (7 s of CPU time measured for
+// the most expensive one).
+func (p *c16prop) KindCPU(kind, tier string) int {
+	if class, _ := splitKind(kind); class == "scale" {
+		return 180
+	}
+	return 0
+}
+
 func (p *c16prop) Plan(tier string, seed int64) []core.Segment {
 	m := tierScale(tier, 40)
 	segs := []core.Segment{{Kind: "corpus:accept", N: 3000}, {Kind: "accept", N: 50000 * m}}
